@@ -704,4 +704,35 @@ theorem minimal_model_loads :
      | _ => false) = true := by
   decide +kernel
 
+/-! ## Degenerate documents: a lone root element with nothing inside
+
+What roxmltree does with a text that has no root element (the empty text, white space, a byte order mark, only a
+prolog or a comment) is outside this model (it answers an error: family `degenerate` of the harness). From the root
+element on: a lone `definitions` element that has its two mandatory attributes is a model without elements, whatever
+the attribute values are — any code points, in particular characters of several bytes — and whatever layout (text,
+comments, processing instructions, attributes in a namespace, attribute order) surrounds them; it is read, builds
+and is evaluable as a model that has no invocable. A lone root of another name, or without the attributes, is an
+error (`parse_root_not_definitions`, `parse_root_missing_mandatory` above). -/
+
+/-- `<definitions name=n namespace=m/>` is read as the model with these two texts and nothing else. -/
+theorem lone_root_parses (uri : Str → UriOut) (n m : Str) :
+    parse uri (.elem N.definitions [⟨false, A.name, n⟩, ⟨false, A.namespace_, m⟩] []) =
+      .ok ⟨n, none, none, none, m, none, none, none, none, [], [], [], none⟩ := by
+  rfl
+
+/-- … and loading it (parse, decision tables, requirement graph) ends in a model: for every name and namespace,
+every FEEL oracle and every behaviour of `uriparse` (which is never asked). -/
+theorem lone_root_loads (uri : Str → UriOut) (o : FeelOracle) (n m : Str) :
+    load uri o (.elem N.definitions [⟨false, A.name, n⟩, ⟨false, A.namespace_, m⟩] []) =
+      .model ⟨n, none, none, none, m, none, none, none, none, [], [], [], none⟩ := by
+  rfl
+
+/-- The same with the attributes in the other order, an attribute `name` in a foreign namespace (not the model's
+name), an identifier, and text, a comment and a processing instruction inside the element. -/
+theorem lone_root_any_layout (uri : Str → UriOut) (o : FeelOracle) (n m i c t : Str) :
+    load uri o (.elem N.definitions [⟨false, A.namespace_, m⟩, ⟨true, A.name, c⟩, ⟨false, A.id, i⟩, ⟨false, A.name, n⟩]
+        [.text t, .comment c, .pi]) =
+      .model ⟨n, some i, none, none, m, none, none, none, none, [], [], [], none⟩ := by
+  rfl
+
 end Dmn.Xml
